@@ -10,9 +10,12 @@ CONSTANTS
   Trim = TRUE
   TrOnly = FALSE
   AxisBy = "dims"
+  Memo = FALSE
+  RangeBy = "coords"
   LookupBy = "search"
   StepPrec = "step"
   QueryCast = "none"
+INVARIANT ImplFresh
 INVARIANT ImplStep
 INVARIANT LawDenoted
 INVARIANT ImplCountWhenWhole
